@@ -3,7 +3,6 @@ import vf
 from checks import objects_common as oc
 
 LEVEL = "model_checking"
-PROVISIONAL = oc.PROVISIONAL      # F3 (shared with C12) and F-proj16; see objects_common.finding_entry
 
 
 def run(ctx):
@@ -36,6 +35,7 @@ META = dict(
                 "24-bit and 16-bit output to the float output (soft clipper included), stream by stream for multistream, and a stated "
                 "tolerance with saturation for the projection decoder."),
     level_note=("The sample relations are exact integer relations but their expected side is computed by the harness from the float twin "
-                "(DESIGN 6.2); TLC compares counts/digests. Sampled configurations and signals. Findings F3 (reset with in-band FEC, C12's) and "
-                "F-proj16 (16-bit projection output wraps) are matched by shape in the trace spec and reported as KNOWN-FINDING."),
+                "(DESIGN 6.2); TLC compares counts/digests. Sampled configurations and signals. Finding F14 (16-bit projection output wraps) is matched by "
+                "shape in the trace spec (TolerateProj16, used only while known_findings.json lists it as known) and reported as KNOWN-FINDING; "
+                "a directed history reaches it on every run."),
 )
